@@ -66,6 +66,10 @@ pub fn suts() -> Vec<Sut> {
               expect: &[("dead-assignment", 1, 1)], makes_node: true },
         Sut { name: "string-escapes", text: ".asciz \"a\\u0041\\tb\"", before: &[".data"], after: &[".text", "li a7, 10", "ecall"],
               expect: &[], makes_node: true },
+        Sut { name: "jalr-one-operand", text: "jalr t0", before: &["la t0, helper"], after: &["li a7, 10", "ecall", "helper:", "ret"],
+              expect: &[], makes_node: true },
+        Sut { name: "jalr-two-operands", text: "jalr t0, 0", before: &["la t0, helper"], after: &["li a7, 10", "ecall", "helper:", "ret"],
+              expect: &[], makes_node: true },
         Sut { name: "stray-paren", text: "( t0", before: &[], after: EXIT,
               expect: &[("parse-unexpected-token", 0, 0)], makes_node: false },
     ]
